@@ -4,6 +4,7 @@ import (
 	"fmt"
 	"math/rand"
 
+	"verif/engine/batch"
 	"verif/engine/gast"
 	"verif/engine/mon"
 	"verif/engine/ref"
@@ -37,7 +38,7 @@ func C06(c *Ctx) {
 		Profile: pureProfile(), Grammars: c06Strata(), NGrammars: c.N(90, 1500),
 		FlagSets:  [][]string{{}},
 		InputsPer: c.N(50, 120), ExhaustLimit: c.N(120, 700), ExhaustLen: 7,
-		OptSets:    os,
+		OptSets:    os, DebugOptEvery: 3,
 		Compare:    CmpVal | CmpErrs | CmpOK | CmpEnd | CmpTrace | CmpMemoOnce,
 		NonTrivial: func(m *ref.Result) bool { return m.Backtracks >= 2 && len(m.Trace) >= 2 },
 		StalePS:    "F02-stale-pred-pos",
@@ -136,6 +137,11 @@ func (c *Ctx) c16B() {
 	}
 	bt := c.BuildUnits(gs, [][]string{{}}, false, nil)
 	defer bt.Close()
+	for _, b := range bt.batches {
+		if b != nil {
+			b.Timeout = 4
+		}
+	}
 	const big = 60000
 	type key struct {
 		u    *Unit
@@ -165,7 +171,7 @@ func (c *Ctx) c16B() {
 			}
 		}
 	}
-	r1 := bt.Run(phase1, runOptsDefault)
+	r1 := bt.Run(phase1, batch.RunOpts{MaxDeaths: 6})
 	isBudget := func(r *mon.Result) bool {
 		return len(r.Errs) > 0 && r.Errs[len(r.Errs)-1].Inner == "max number of expressions parsed"
 	}
@@ -204,7 +210,7 @@ func (c *Ctx) c16B() {
 			phase2 = append(phase2, &mon.Case{ID: id, Pkg: k.u.Pkg, Input: k.in, Memo: k.memo, Debug: k.dbg, Stats: k.st, MaxExpr: n, MaxEvents: 2000})
 		}
 	}
-	r2 := bt.Run(phase2, runOptsDefault)
+	r2 := bt.Run(phase2, batch.RunOpts{MaxDeaths: 6})
 	for _, cs := range phase2 {
 		e := exps[cs.ID]
 		r := r2[cs.ID]
